@@ -10,6 +10,7 @@ import (
 	stdlog "log"
 	"net/http"
 	"net/url"
+	"strconv"
 
 	restful "github.com/emicklei/go-restful/v3"
 )
@@ -18,7 +19,23 @@ func init() {
 	restful.SetLogger(stdlog.New(io.Discard, "", 0))
 }
 
-var errBottom = errors.New("bottom writer: injected failure")
+// bottomErr is what the bottom writer returns: a fresh value for every failing Write call, so that
+// "the call returned THE error that Write returned" can be checked by identity.
+type bottomErr struct{ call int }
+
+func (e *bottomErr) Error() string {
+	return fmt.Sprintf("bottom writer: injected failure of Write call #%d", e.call)
+}
+
+// sameErr: identity of error values (== on interfaces panics on uncomparable dynamic types).
+func sameErr(a, b error) (same bool) {
+	defer func() {
+		if recover() != nil {
+			same = false
+		}
+	}()
+	return a == b
+}
 
 // WEv is one Write call received by the bottom writer.
 type WEv struct {
@@ -55,7 +72,7 @@ func (b *Bottom) Write(p []byte) (int, error) {
 		}
 		b.Body.Write(p[:n])
 		b.Writes = append(b.Writes, WEv{len(p), n, true})
-		return n, errBottom
+		return n, &bottomErr{call: i}
 	}
 	b.Body.Write(p)
 	b.Writes = append(b.Writes, WEv{len(p), len(p), false})
@@ -67,6 +84,25 @@ func (b *Bottom) Write(p []byte) (int, error) {
 type Spy struct {
 	inner  http.ResponseWriter
 	Events []Event
+	errs   []error // the distinct error values its Write handed up, in order of first appearance
+}
+
+// Tag names an error value: 0 = nil, k+1 = the k-th distinct value a Write beneath the Response
+// returned, -1 = none of them.
+func (s *Spy) Tag(err error, add bool) int {
+	if err == nil {
+		return 0
+	}
+	for i, e := range s.errs {
+		if sameErr(e, err) {
+			return i + 1
+		}
+	}
+	if !add {
+		return -1
+	}
+	s.errs = append(s.errs, err)
+	return len(s.errs)
 }
 
 func (s *Spy) Header() http.Header { return s.inner.Header() }
@@ -78,7 +114,7 @@ func (s *Spy) WriteHeader(status int) {
 
 func (s *Spy) Write(p []byte) (int, error) {
 	n, err := s.inner.Write(p)
-	s.Events = append(s.Events, Event{Offered: len(p), Accepted: n, Failed: err != nil})
+	s.Events = append(s.Events, Event{Offered: len(p), Accepted: n, Failed: err != nil, Err: s.Tag(err, true)})
 	return n, err
 }
 
@@ -99,8 +135,8 @@ var AcceptMimes = map[string][]string{
 	"n": {"text/plain", "*/*", ""},
 }
 
-// apply performs one call and says whether it returned a non-nil error.
-func apply(resp *restful.Response, o Op) bool {
+// apply performs one call and hands back the error it returned.
+func apply(resp *restful.Response, o Op) error {
 	switch o.Kind {
 	case "pp":
 		resp.PrettyPrint(o.B)
@@ -110,43 +146,47 @@ func apply(resp *restful.Response, o Op) bool {
 		resp.WriteHeader(o.Status)
 	case "w":
 		_, err := resp.Write(payload(o.N))
-		return err != nil
+		return err
 	case "wes":
-		return resp.WriteErrorString(o.Status, text(o.N)) != nil
+		return resp.WriteErrorString(o.Status, text(o.N))
 	case "we":
 		var e error
 		if !o.ErrNil {
 			e = errors.New(text(o.N))
 		}
-		return resp.WriteError(o.Status, e) != nil
+		return resp.WriteError(o.Status, e)
 	case "wse":
-		return resp.WriteServiceError(o.Status, o.Val.Build().(restful.ServiceError)) != nil
+		return resp.WriteServiceError(o.Status, o.Val.Build().(restful.ServiceError))
 	case "whe":
-		return resp.WriteHeaderAndEntity(o.Status, o.Val.Build()) != nil
+		return resp.WriteHeaderAndEntity(o.Status, o.Val.Build())
 	case "wen":
-		return resp.WriteEntity(o.Val.Build()) != nil
+		return resp.WriteEntity(o.Val.Build())
 	case "waj":
-		return resp.WriteAsJson(o.Val.Build()) != nil
+		return resp.WriteAsJson(o.Val.Build())
 	case "wax":
-		return resp.WriteAsXml(o.Val.Build()) != nil
+		return resp.WriteAsXml(o.Val.Build())
 	case "wj":
-		return resp.WriteJson(o.Val.Build(), restful.MIME_JSON) != nil
+		return resp.WriteJson(o.Val.Build(), restful.MIME_JSON)
 	case "whj":
-		return resp.WriteHeaderAndJson(o.Status, o.Val.Build(), restful.MIME_JSON) != nil
+		return resp.WriteHeaderAndJson(o.Status, o.Val.Build(), restful.MIME_JSON)
 	case "whx":
-		return resp.WriteHeaderAndXml(o.Status, o.Val.Build()) != nil
+		return resp.WriteHeaderAndXml(o.Status, o.Val.Build())
 	default:
 		panic("harness: unknown op " + o.Kind)
 	}
-	return false
+	return nil
 }
 
 // runOps performs the calls on resp, reading the getters after each one.
 func runOps(resp *restful.Response, spy *Spy, ops []Op, out *Real) {
 	for _, o := range ops {
 		before := len(spy.Events)
-		retErr := apply(resp, o)
-		out.Calls = append(out.Calls, Obs{Status: resp.StatusCode(), Length: resp.ContentLength(), RetErr: retErr,
+		err := apply(resp, o)
+		ret := "x"
+		if t := spy.Tag(err, false); t >= 0 {
+			ret = strconv.Itoa(t)
+		}
+		out.Calls = append(out.Calls, Obs{Status: resp.StatusCode(), Length: resp.ContentLength(), RetErr: err != nil, Ret: ret,
 			ErrSet: resp.Error() != nil, Events: append([]Event{}, spy.Events[before:]...)})
 	}
 }
